@@ -76,6 +76,8 @@ def random_case(rng, tier):
     if rng.random() < 0.55:
         program = programs.gen_process_program(rng, PROGRAM_CFG)
         program['inputs'] = copy.deepcopy(rng.choice(INPUTS))
+        if rng.random() < 0.25:
+            program['codec'] = True  # the class overrides encode_input_args / decode_input_args
         if rng.random() < 0.15:
             # a wait without continuation (the process can only be killed afterwards): still a state that can be saved
             waits = [s for s in program['steps'] if s['ret']['t'] == 'wait']
